@@ -41,13 +41,15 @@ ASSUMPTIONS = [a for a in C04.ASSUMPTIONS
     'async scenarios run on native threads: a case that does not complete within its watchdog (3 s, cases take milliseconds) is run again with twice the watchdog; one expiry is inconclusive, two are a violation; its mechanism key is derived from the scenario and the recorded final state (which tasks are done, enqueue_done, exception), never from the expiry alone',
     'cancel scenario: a consumer that ends with any exception or with an end of stream is accepted; after a clean end only the tail of the cancelled producer (from the element in flight on) may be missing',
     'faults whose exception rejects notes: a consumer may end with the injected exception or with any error that chains it (__cause__ / __context__); the failing producer may leave enqueue_from_iterator with any exception',
+    'tightpool scenario (executor with exactly as many threads as async enqueuers, P >= 2): the consumer asks first and only issues a stop once every enqueuer sits in put() on the full buffer, so the unchanged code never has a get queued behind blocked puts (that starvation is the caller\'s pool size, not claimed); a case in which that state is not reached within the watchdog is counted (async_tightpool_state_not_reached), not judged; 10 s watchdog, one retry at 20 s',
     'numsteps scenario: elements beyond the k taken (prefetched into the iterator cache or still queued) are dropped; after a chunk has one confirmed hang its remaining scenario cases are skipped (counter async_scn_cases_skipped_after_hang)',
 ]
 REQUIRED = ['async_cases', 'schedules', 'line_preemptions', 'fault_cases', 'stop_cases',
             'timeout_cases', 'faults_fired', 'stops_issued', 'shim_threading_installed',
             'timing_cases', 'timing_timeouts_fired', 'timing_naps', 'timing_consumer_retries',
             'timing_put_timeouts', 'async_cancel_cases', 'async_numsteps_cases',
-            'async_numsteps_sync_twin_cases', 'fault_exc_rejects_notes_cases',
+            'async_numsteps_sync_twin_cases', 'async_tightpool_stops_with_all_pool_threads_in_put',
+            'fault_exc_rejects_notes_cases',
             'fault_exc_rejects_notes_fired', 'away_cases', 'away_parks',
             'away_batches_freeing_several_slots']
 CHUNK_TIMEOUT_S = {'quick': 300, 'thorough': 3000}
@@ -65,7 +67,9 @@ def plan(tier, seed):
   n_scn, per = (2, 40) if tier == 'quick' else (8, 400)
   scn_chunks = [{'mode': 'async_scn', 'scn': scn, 'chunk': j, 'rseed': seed, 'n': per}
                 for j in range(n_scn) for scn in ('cancel', 'numsteps')]
-  return scn_chunks + sched_chunks
+  tight = [{'mode': 'async_scn', 'scn': 'tightpool', 'chunk': 0, 'rseed': seed,
+            'n': 6 if tier == 'quick' else 60}]
+  return scn_chunks + tight + sched_chunks
 
 
 def scenario(case):
@@ -276,8 +280,40 @@ def gen_numsteps_case(rng, sync_twin):
           'delay_seed': rng.randrange(1 << 20), 'watchdog_s': ASYNC_SCN_WATCHDOG_S}
 
 
+def run_tight_pool_chunk(ctx, spec):
+  """Stop request with every thread of the queue's own executor blocked in put() (C05d)."""
+  from vlib import aqwork
+  rng = random.Random(spec['rseed'] * 9176 + 77)
+  for _ in range(spec['n']):
+    case = {'engine': 'async', 'scn': 'tightpool', 'P': rng.choice([2, 2, 3]),
+            'cap': rng.choice([1, 2, 3]), 'delay_seed': rng.randrange(1 << 20)}
+    if run_tight_pool_one(ctx, case) == 'hang':
+      break
+
+
+def run_tight_pool_one(ctx, case):
+  from vlib import aqwork
+  ctx.count('async_tightpool_cases')
+  ctx.case(('async', case), True)
+  status, rec = aqwork.run_tight_pool_case(case, 10.0)
+  if status == 'hang':
+    status, rec = aqwork.run_tight_pool_case(case, 20.0)
+    if status == 'hang':
+      ctx.violation('stop_request_does_not_unblock', case, rec, mechanism=aqwork.MECH_TIGHT_POOL)
+      return 'hang'
+    ctx.inconclusive_case('tightpool case hit the watchdog once', case)
+    return 'done'
+  if status == 'setup':
+    ctx.count('async_tightpool_state_not_reached')
+    return 'done'
+  ctx.count('async_tightpool_stops_with_all_pool_threads_in_put')
+  return 'done'
+
+
 def run_async_scn_chunk(ctx, spec):
   scn = spec['scn']
+  if scn == 'tightpool':
+    return run_tight_pool_chunk(ctx, spec)
   rng = random.Random(spec['rseed'] * 9176 + spec['chunk'] * 131 + {'cancel': 2, 'numsteps': 3}[scn])
   n = spec['n']
   if scn == 'cancel':
@@ -357,6 +393,8 @@ def run_chunk(ctx, spec):
 
 
 def run_case(ctx, case):
+  if case.get('engine') == 'async' and case.get('scn') == 'tightpool':
+    return run_tight_pool_one(ctx, case)
   if case.get('engine') == 'async' and case.get('scn'):
     return run_async_scn_one(ctx, case)
   if case.get('engine') == 'async':
